@@ -610,7 +610,10 @@ class Sim:
 
     def close_spawner(self, chan):
         self.emit("spawner-eof", chan=chan)
-        os.close(self.P["lrep" if chan == "l" else "rrep"][1])
+        try:
+            os.close(self.P["lrep" if chan == "l" else "rrep"][1])
+        except OSError:
+            pass
 
     def kill_daemons(self, who=("send", "clean")):
         """(scenario) SIGKILL the daemon and/or the cleaner and collect them"""
